@@ -22,7 +22,7 @@ EXPLANATION = (
     "payload), so partial writes of any size re-emit or skip no header byte. The transport taking what it was given "
     "is trusted (C17 for Quinn)."
     " C14-a further checks the five From<..> for WriteBuf constructors on their paths (cursor starts at 0/0, the frame handed in is the frame kept, the header is encoded exactly once and in order) and the grease stream's state machine (a step is completed only on a path where the step's poll answered Ready).")
-RULES = "C14-a who may write what, WriteBuf constructors, grease-stream steps complete only after Ready, finish() clears the grease flag only after the awaited write (A10/A4/A2); C14-b declared lengths (A4); C14-c reserved identifiers (A6/A11); C14-d buffer bound (A17); C14-b also: Settings::len counts size(from_u64(id)) + size(from_u64(value)) uncast; C14-e also: only remaining/chunk/advance are implemented by hand; C14-e header/payload cursor (extracted-expression evaluation); shared: varint form tables under C14-b"
+RULES = "C14-a who may write what, WriteBuf constructors, grease-stream steps complete only after Ready, finish() clears the grease flag only after the awaited write (A10/A4/A2); C14-b declared lengths (A4); C14-c reserved identifiers (A6/A11); C14-d buffer bound (A17); C14-b also: Settings::len counts size(from_u64(id)) + size(from_u64(value)) uncast; C14-e also: only remaining/chunk/advance are implemented by hand, remaining() ends in the payload's own remaining(); shared through a proxy: C08-a under C14-b; C14-e header/payload cursor (extracted-expression evaluation); shared: varint form tables under C14-b"
 
 FR = "h3::proto::frame::Frame"
 WRITE = "h3::stream::write"
@@ -340,4 +340,8 @@ def run(ctx):
     # ------------------------------------------------------------------ C14-e cursors
     shared.header_payload_cursor(ctx, "C14-e", "<h3::stream::WriteBuf as bytes::buf::buf_impl::Buf>::", "buf")
     shared.header_payload_cursor(ctx, "C14-e", "<h3_datagram::datagram::EncodedDatagram as bytes::buf::buf_impl::Buf>::", "stream_id")
+    # the GOAWAY identifiers h3 writes never increase (RFC 9114 5.2): the monotone-send clause of C08-a runs under this property too
+    if not getattr(ctx, "nested", False):
+        from rules import C08 as _c08
+        _c08.run(shared.Proxy(ctx, ("C08-a",), "C14-b"))
     ctx.assume("BufMut writers into the fixed header buffer advance by what they write (bytes crate)")
